@@ -119,5 +119,20 @@ CHECKS["C05"] = {
             "whole programs (accepted iff well typed in the declarative system) -- an open T2 obligation; callback-parameter compatibility with the signal is checked under C13.",
 }
 
+CHECKS["C09"] = {
+    "text": "Proofs about the text channel: for EVERY string of characters XML 1.0 can carry, what an XML processor (model of character-data reading: end-of-line "
+            "normalisation, predefined entities, numeric references, production Char) reads back from the text uigen writes is the source string (C09_roundtrip, "
+            "after the repair of F6); quick-xml's own escape round-trips exactly the strings without CR (C09_escape_roundtrip, refuted with CR = finding F6); every "
+            "written character is an XML Char iff every source character is, and a string with any other character cannot be carried at all "
+            "(C09_non_xml_char_ill_formed) -- such strings are now diagnosed (repair of F17). Tie and validation: the bytes of <string> elements in real .ui files "
+            "vs the model over strings of all character classes; every .ui of generated documents, of the repository's example/test documents and of their mutants "
+            "is parsed with expat and checked against the Designer form grammar table (root/ class/ one root widget, nesting, exactly one value element per property, "
+            "no duplicate property names), and strings are read back and compared with the source.",
+    "technique": "Coq proof of the escape/read-back round trip for all XML-Char strings + byte-level differential check of written text + expat/grammar validation of real outputs",
+    "design_ref": "5 C09",
+    "note": "Trusted: expat as XML processor; the form grammar table (subset of Qt's ui4 format that qmluic writes) in vlib/c09.py; the element structure is validated per "
+            "output, not proved (no Gallina model of UiForm serialisation yet). F6 and F17 were genuine defects, repaired by fix: commits.",
+}
+
 NOT_YET = {
 }
